@@ -96,7 +96,13 @@ pub fn judge(x: &Vec<u8>, st: &mut Stats) -> Verdict {
     match crate::engine::guard(|| {
         views(x, h, "borrowed")?;
         let owned = h.to_owned();
-        views(x, &owned, "owned")
+        views(x, &owned, "owned")?;
+        // a copy of a copy, and a clone, expose the same views
+        let twice = owned.to_owned();
+        drop(owned);
+        views(x, &twice, "owned-twice")?;
+        let cl = h.clone();
+        views(x, &cl, "clone")
     }) {
         Ok(v) => v,
         // an accessor that panics on an accepted header has no value to satisfy the identities with
